@@ -985,7 +985,10 @@ func (s *Session) input(seg *segment) error {
 				panic(fmt.Sprintf("%v cipher block user name is not set", seg))
 			}
 			if prevUserName != nextUserName {
-				panic(fmt.Sprintf("%v cipher block user name %q is different from %v cipher block user name %q", s, prevUserName, seg, nextUserName))
+				// The segment is authenticated by a different user.
+				// Drop it without changing the session.
+				log.Debugf("%v dropped %v because cipher block user name %q is different from %q", s, seg, nextUserName, prevUserName)
+				return nil
 			}
 		}
 
